@@ -7,6 +7,7 @@ mod common;
 mod stylefmt;
 mod treegen;
 mod c02;
+mod c11;
 mod c10;
 mod c08;
 mod c03;
@@ -74,6 +75,7 @@ fn main() {
     let mut out = Out::new(&out_dir);
     let extra = match prop.as_str() {
         "C02" => c02::run(&cfg, &mut out),
+        "C11" => c11::run(&cfg, &mut out),
         "C10" => c10::run(&cfg, &mut out),
         "C08" => c08::run(&cfg, &mut out),
         "C03" => c03::run(&cfg, &mut out),
